@@ -27,7 +27,7 @@ import re
 from concurrent.futures import ThreadPoolExecutor
 
 from rkstatic.x_intalg import (Lin, LinEnv, access_path, bool_atom, cast_chain, clean_type, cmp_atom, const_value,
-                               fmt_intervals, irange, is_signed, leaf, lin, negate_cmp, path_str, preserved)
+                               fmt_intervals, irange, is_signed, ite_atom, leaf, lin, negate_cmp, path_str, preserved)
 
 LEVEL = 'other'
 EXPLANATION = (
@@ -898,10 +898,11 @@ def inner_call(tu, e):
     return None
 
 
-def sym_step(tu, st, n, on_call=None):
+def sym_step(tu, st, n, on_call=None, env=None):
     """apply one CFG statement element to the store"""
     k = n.get('kind')
     ks = tu.kids(n)
+    ev = (lambda e_: lin(tu, e_, env)) if env is not None else st.ev
     if k == 'BinaryOperator' and n.get('opcode') == '=':
         p = access_path(tu, ks[0])
         if p is None:
@@ -911,7 +912,7 @@ def sym_step(tu, st, n, on_call=None):
             if src is not None:
                 st.copy_struct(p, src)
                 return
-        v = st.ev(ks[1])
+        v = ev(ks[1])
         st.write(p, v)
     elif k == 'CompoundAssignOperator':
         p = access_path(tu, ks[0])
@@ -919,7 +920,7 @@ def sym_step(tu, st, n, on_call=None):
             return
         op = n.get('opcode')
         if op in ('+=', '-='):
-            v = st.ev(ks[1])
+            v = ev(ks[1])
             st.write(p, st.read(p) + v if op == '+=' else st.read(p) - v)
         else:
             st.write(p, Lin.atom(('opaque', n['id'])))
@@ -944,7 +945,7 @@ def sym_step(tu, st, n, on_call=None):
             if src is not None and irange(tu.sd(leaf(tu, init)).get('ct')) is None and not clean_type(tu.sd(leaf(tu, init)).get('ct') or '').endswith('*'):
                 st.copy_struct(p, src)
             else:
-                st.write(p, st.ev(init))
+                st.write(p, ev(init))
     elif k in CALLS and on_call is not None:
         # calls that are not initialisers (handled from DeclStmt) still get a chance to record events
         par = tu.par(n)
@@ -1008,6 +1009,88 @@ def sym_paths(tu, g, start, stops, st0, on_call=None, limit=256):
                 if s is not None:
                     stack.append((s, st, onpath | {bid}))
     return out
+
+
+def inlinable(tu, call):
+    """the callee's definition, if it is an ordinary (non-virtual) function of the analysed tree whose CFG is known"""
+    cf = tu.callee_fn(call)
+    if cf is None or cf.get('virt') or tu.cfg(cf) is None:
+        return None
+    if tu.sd(call).get('q', '').startswith('std::'):
+        return None
+    return cf
+
+
+def fn_value(tu, f, args, env_outer=None, depth=0):
+    """Value returned by the loop-free function f for argument values `args` (Lin per parameter, None = unknown),
+    as a Lin over the caller's atoms: branches become ite / min / max atoms.  None if not expressible."""
+    g = tu.cfg(f)
+    if g is None or depth > 3 or g.back_edges():
+        return None
+    st0 = Store(tu)
+    for p, a in zip(f['params'], args):
+        if a is not None:
+            st0.vals[param_path(p)] = a
+
+    def on_call(c, env):
+        cf = inlinable(tu, c)
+        if cf is None:
+            return None
+        av = [lin(tu, a_, env) if irange(tu.sd(a_).get('ct')) is not None else None for a_ in tu.kids(c)[1:]]
+        return fn_value(tu, cf, av, env, depth + 1)
+
+    def walk(bid, st, seen):
+        if bid in seen or bid == g.exit:
+            return None
+        blk = g.blocks[bid]
+        st = st.clone()
+        env = LinEnv(tu, on_read=lambda p, n: st.read(p), on_call=on_call)
+        for e in blk.el:
+            if e[0] != 'S':
+                continue
+            n = tu.node(e[1])
+            if n is None:
+                continue
+            if n.get('kind') == 'ReturnStmt':
+                ks = tu.kids(n)
+                return lin(tu, ks[0], env) if ks else None
+            if n.get('kind') in ('BinaryOperator', 'CompoundAssignOperator', 'UnaryOperator', 'DeclStmt'):
+                if n.get('kind') == 'DeclStmt' or n.get('opcode') in ('=', '+=', '-=', '++', '--'):
+                    sym_step(tu, st, n, None, env)
+        succ = blk.succ
+        if blk.cond is not None and len(succ) == 2 and succ[0] is not None and succ[1] is not None:
+            a = bool_atom(tu, tu.node(blk.cond), env)
+            t = walk(succ[0], st, seen | {bid})
+            f_ = walk(succ[1], st, seen | {bid})
+            if t is None or f_ is None:
+                return None
+            if t == f_:
+                return t
+            if a is None:
+                return None
+            return Lin.atom(ite_atom(a, t, f_))
+        nxt = [x for x in succ if x is not None]
+        if len(nxt) != 1:
+            return None
+        return walk(nxt[0], st, seen | {bid})
+    return walk(g.entry, st0, frozenset())
+
+
+def make_env(tu, defs):
+    """LinEnv that reads single-assignment integer locals through their initialiser and inlines helper functions"""
+    def on_read(p, n):
+        if p in defs and irange(tu.sd(n).get('ct')) is not None:
+            return lin(tu, defs[p], env)
+        return None
+
+    def on_call(c, e):
+        cf = inlinable(tu, c)
+        if cf is None:
+            return None
+        av = [lin(tu, a_, e) if irange(tu.sd(a_).get('ct')) is not None else None for a_ in tu.kids(c)[1:]]
+        return fn_value(tu, cf, av, e)
+    env = LinEnv(tu, on_read=on_read, on_call=on_call)
+    return env
 
 
 # =====================================================================================================
